@@ -2,7 +2,7 @@
    specification (Model/Denote.v) for all widths and values; part-select; processes; flip-flops. *)
 From Coq Require Import ZArith List Bool Lia ZifyBool.
 From V.Model Require Import Bits Shape Ast Denote PyRTL PyEval Stmt Process RtlilSem.
-From V.Proofs Require Import BitsP ShapeP ExprP.
+From V.Proofs Require Import BitsP ShapeP ExprP StmtP.
 Import ListNotations.
 Open Scope Z_scope.
 
@@ -1698,4 +1698,271 @@ Proof.
   destruct (emit_as (al_fuel tab l) tab CTrue l) as [ts rest]. cbn [snd] in *.
   destruct rest as [|a' rest']; [eauto|].
   exfalso. apply H2. pose proof (suffix_conds tab _ _ H1 Hok) as Hc. inversion Hc; auto.
+Qed.
+
+
+(* ====================================================================== *)
+(* _ir.emit_assign                                                         *)
+(* ====================================================================== *)
+Lemma wa_run_app rho i w l1 l2 acc : wa_run rho i w (l1 ++ l2) acc = wa_run rho i w l2 (wa_run rho i w l1 acc).
+Proof. unfold wa_run. apply fold_left_app. Qed.
+
+(* every Assignment produced under a condition is gated by it: under a false condition nothing happens *)
+Lemma emit_assign_false rho selnets i w lhs : forall start rhs cond old, aval rho cond = false ->
+  wa_run rho i w (emit_assign selnets lhs start rhs cond) old = old.
+Proof.
+  induction lhs as [v s|j s|o a IHa|o a b0 IHa IHb|a lo hi IHa|a off pw st IHa IHoff|l IH|t cs IHt IHcs]
+    using expr_ind'; intros start rhs cond old Hc; try reflexivity.
+  - cbn [emit_assign wa_run fold_left]. unfold wa_step. cbn [wa_cond]. rewrite Hc, andb_false_r. reflexivity.
+  - destruct o; try reflexivity; cbn [emit_assign]; apply IHa; auto.
+  - cbn [emit_assign]. apply IHa; auto.
+  - cbn [emit_assign].
+    generalize (seq 0 (Z.to_nat (Z.min ((ewidth a + st - 1) / st) (2 ^ nlen (selnets off))))) at 2.
+    intros ks. revert old. induction ks as [|k ks IHk]; intros old; [reflexivity|].
+    rewrite wa_run_app. destruct (ewidth a <=? start + Z.of_nat k * st).
+    + cbn [wa_run fold_left]. apply IHk.
+    + rewrite IHa by (cbn [aval]; rewrite Hc; reflexivity). apply IHk.
+  - cbn [emit_assign].
+    match goal with |- wa_run _ _ _ (?f l 0) _ = _ =>
+      assert (H : forall ps ps0 old, Forall (fun lhs => forall start rhs cond old, aval rho cond = false ->
+                    wa_run rho i w (emit_assign selnets lhs start rhs cond) old = old) ps ->
+                  wa_run rho i w (f ps ps0) old = old) end.
+    { induction ps as [|p ps IHp]; intros ps0 old' Hf; [reflexivity|].
+      inversion Hf as [|? ? Hp Hps]; subst. cbn beta iota.
+      destruct (ps0 + ewidth p <=? start); [apply IHp; auto|].
+      destruct (start + nlen rhs <=? ps0); [apply IHp; auto|].
+      rewrite wa_run_app. rewrite Hp by auto. apply IHp; auto. }
+    apply H; auto.
+  - cbn [emit_assign].
+    match goal with |- wa_run _ _ _ (?f cs 0%nat) _ = _ =>
+      assert (H : forall cs' k old, Forall (fun c : option (list pattern) * expr => forall start rhs cond old, aval rho cond = false ->
+                    wa_run rho i w (emit_assign selnets (snd c) start rhs cond) old = old) cs' ->
+                  wa_run rho i w (f cs' k) old = old) end.
+    { induction cs' as [|c cs' IHc]; intros k old' Hf; [reflexivity|].
+      inversion Hf as [|? ? Hc1 Hcs']; subst. cbn beta iota.
+      rewrite wa_run_app. destruct (ewidth (snd c) <=? start); [cbn [wa_run fold_left]; apply IHc; auto|].
+      rewrite Hc1 by (cbn [aval]; rewrite Hc; reflexivity). apply IHc; auto. }
+    apply H; auto.
+Qed.
+
+(* ---- what the produced Assignments do, bit by bit, against the addressing specification Stmt.wr ---- *)
+(* the selector nets emit_rhs returned carry the selector's value *)
+Fixpoint seln_ok (selnets : expr -> list net) (rho : valuation) (curr : env) (lhs : expr) : Prop :=
+  match lhs with
+  | EOp1 _ a => seln_ok selnets rho curr a
+  | ESlice a _ _ => seln_ok selnets rho curr a
+  | EPart a off _ _ => seln_ok selnets rho curr a /\
+                       nlen (selnets off) = ewidth off /\ nval rho (selnets off) = denote curr off
+  | ECat parts => (fix go (ps : list expr) : Prop :=
+                     match ps with [] => True | p :: r => seln_ok selnets rho curr p /\ go r end) parts
+  | ESwitch t cs => (nlen (selnets t) = ewidth t /\ nval rho (selnets t) = denote curr t mod 2 ^ ewidth t) /\
+                    (fix go (cs : list (option (list pattern) * expr)) : Prop :=
+                       match cs with [] => True | c :: r => seln_ok selnets rho curr (snd c) /\ go r end) cs
+  | _ => True
+  end.
+
+(* targets covered by the theorem below: signals, u/s reinterpretation, slices and choices (array elements, of any
+   widths) nested in any way.  Part-select and concatenation targets: see the `ea` stream *)
+Fixpoint tclass (lhs : expr) : bool :=
+  match lhs with
+  | ESig _ _ => true
+  | EOp1 _ a => tclass a
+  | ESlice a _ _ => tclass a
+  | ESwitch t cs => forallb (fun c => tclass (snd c)) cs
+  | _ => false
+  end.
+
+Lemma seln_ok_sw selnets rho curr t cs : seln_ok selnets rho curr (ESwitch t cs) <->
+  (nlen (selnets t) = ewidth t /\ nval rho (selnets t) = denote curr t mod 2 ^ ewidth t) /\
+  Forall (fun c => seln_ok selnets rho curr (snd c)) cs.
+Proof.
+  cbn [seln_ok]. apply and_iff_compat_l. induction cs as [|c cs IH]; [split; auto|]. rewrite IH.
+  split; [intros [H1 H2]; constructor; auto|intros H; inversion H; auto].
+Qed.
+
+Lemma pat_sem_dashes n t : pat_sem (dashes n) t = true.
+Proof. unfold dashes. induction n as [|n IH]; simpl; auto. Qed.
+
+Lemma testbit_nval_firstn rho v (n : nat) j : 0 <= j -> (n <= length v)%nat ->
+  Z.testbit (nval rho (firstn n v)) j = (j <? Z.of_nat n) && Z.testbit (nval rho v) j.
+Proof. intros Hj Hn. rewrite nval_firstn by auto. apply testbit_mask. lia. Qed.
+
+(* to_binary(k, n) matches exactly the value k *)
+Lemma pat_sem_to_binary n k t : 0 <= k -> 0 <= t ->
+  pat_sem (to_binary n k) t = (t mod 2 ^ Z.of_nat n =? k mod 2 ^ Z.of_nat n).
+Proof.
+  intros Hk Ht. unfold to_binary. induction n as [|n IH].
+  - simpl. rewrite !Z.mod_1_r. reflexivity.
+  - rewrite seq_S, rev_app_distr. cbn [rev app map Nat.add pat_sem]. rewrite map_length, rev_length, seq_length.
+    rewrite IH. rewrite Nat2Z.inj_succ.
+    pose proof (pow2_pos (Z.of_nat n) ltac:(lia)) as Hp.
+    assert (Hsplit : forall x, 0 <= x -> x mod 2 ^ Z.succ (Z.of_nat n) =
+                       x mod 2 ^ Z.of_nat n + 2 ^ Z.of_nat n * Z.b2z (Z.testbit x (Z.of_nat n))).
+    { intros x Hx. rewrite Z.pow_succ_r by lia. rewrite (Z.mul_comm 2). rewrite Z.rem_mul_r by lia.
+      rewrite Z.testbit_spec' by lia. reflexivity. }
+    rewrite (Hsplit t Ht), (Hsplit k Hk).
+    pose proof (Z.mod_pos_bound t (2 ^ Z.of_nat n) Hp). pose proof (Z.mod_pos_bound k (2 ^ Z.of_nat n) Hp).
+    destruct (Z.testbit t (Z.of_nat n)), (Z.testbit k (Z.of_nat n)); cbn [Bool.eqb andb Z.b2z]; lia.
+Qed.
+
+Lemma pl_match_binary n k O : 0 <= k < 2 ^ Z.of_nat n -> 0 <= O < 2 ^ Z.of_nat n ->
+  pl_match O [to_binary n k] = (O =? k).
+Proof.
+  intros Hk HO. unfold pl_match. cbn [existsb]. rewrite orb_false_r, pat_sem_to_binary by lia.
+  rewrite !Z.mod_small by lia. reflexivity.
+Qed.
+
+Lemma first_match_binary n O : 0 <= O < 2 ^ Z.of_nat n -> forall m base j, (j < m)%nat ->
+  Z.of_nat (base + m) <= 2 ^ Z.of_nat n ->
+  first_match O (map (fun k => [to_binary n (Z.of_nat k)]) (seq base m)) j = (O =? Z.of_nat (base + j)).
+Proof.
+  intros HO. induction m as [|m IH]; intros base j Hj Hb; [lia|].
+  cbn [seq map first_match]. destruct j as [|j].
+  - rewrite pl_match_binary by lia. f_equal. lia.
+  - rewrite pl_match_binary by lia. rewrite IH by lia.
+    replace (Z.of_nat (S base + j)) with (Z.of_nat (base + S j)) by lia.
+    destruct (O =? Z.of_nat (base + S j)) eqn:E; [|rewrite andb_false_r; reflexivity].
+    replace (O =? Z.of_nat base) with false by lia. reflexivity.
+Qed.
+
+Lemma wa_run_one rho i w a acc : wa_run rho i w [a] acc = wa_step rho i w acc a.
+Proof. reflexivity. Qed.
+
+Theorem emit_assign_bits ss curr rho selnets lhs :
+  wf_lhs lhs = true -> sig_ok ss lhs -> sel_ok curr lhs -> seln_ok selnets rho curr lhs -> tclass lhs = true ->
+  forall start rhs cond i b old, aval rho cond = true -> 0 <= start -> start + nlen rhs <= ewidth lhs ->
+  0 <= b < width (ss i) ->
+  Z.testbit (wa_run rho i (width (ss i)) (emit_assign selnets lhs start rhs cond) old) b =
+  match wr curr lhs i b with
+  | Some k => if in_window start (nlen rhs) k then Z.testbit (nval rho rhs) (k - start) else Z.testbit old b
+  | None => Z.testbit old b
+  end.
+Proof.
+  unfold in_window.
+  induction lhs as [v s|j s|o a IHa|o a b0 IHa IHb|a lo hi IHa|a off pw st IHa IHoff|l IH|t cs IHt IHcs]
+    using expr_ind'; intros Hwf Hsig Hsel Hsn Hcl start rhs cond i b old Hc Hst Hfit Hb;
+    simpl in Hwf; try discriminate; simpl in Hcl; try discriminate.
+  - (* Signal *)
+    simpl in Hsig. subst s. cbn [emit_assign]. rewrite wa_run_one. unfold wa_step. cbn [wa_sig wa_cond wa_start wa_val wr].
+    rewrite Hc, andb_true_r. pose proof (nlen_nonneg rhs) as Hr.
+    destruct (Nat.eqb j i) eqn:E.
+    + apply Nat.eqb_eq in E. subst j. cbn [andb].
+      replace ((0 <=? b) && (b <? width (ss i))) with true by lia.
+      rewrite put_bit by lia. replace (b <? width (ss i)) with true by lia. rewrite andb_true_r. reflexivity.
+    + reflexivity.
+  - (* u / s *)
+    destruct o; try discriminate; apply andb_true_iff in Hwf; destruct Hwf as [Hwf _];
+      cbn [emit_assign wr]; apply IHa; auto.
+  - (* Slice *)
+    apply andb_true_iff in Hwf. destruct Hwf as [Hwf H3]. apply andb_true_iff in Hwf. destruct Hwf as [Hwf H2].
+    apply andb_true_iff in Hwf. destruct Hwf as [Hwf H1].
+    cbn [emit_assign wr]. unfold ewidth in Hfit. cbn [shape_of width] in Hfit.
+    rewrite (IHa Hwf Hsig Hsel Hsn Hcl (start + lo) rhs cond i b old Hc ltac:(lia) ltac:(lia) Hb).
+    pose proof (nlen_nonneg rhs) as Hr.
+    destruct (wr curr a i b) as [k|]; [|reflexivity].
+    destruct ((start + lo <=? k) && (k <? start + lo + nlen rhs)) eqn:E1.
+    + replace ((lo <=? k) && (k <? hi)) with true by lia.
+      replace ((start <=? k - lo) && (k - lo <? start + nlen rhs)) with true by lia. f_equal. lia.
+    + destruct ((lo <=? k) && (k <? hi)) eqn:E2; [|reflexivity].
+      replace ((start <=? k - lo) && (k - lo <? start + nlen rhs)) with false by lia. reflexivity.
+  - (* choice (SwitchValue) *)
+    apply andb_true_iff in Hwf. destruct Hwf as [Hwt Hwcs].
+    apply sig_ok_sw in Hsig. apply sel_ok_sw in Hsel. destruct Hsel as [Het Hsel].
+    apply seln_ok_sw in Hsn. destruct Hsn as [[Hnl Hnv] Hsn].
+    set (W := ewidth (ESwitch t cs)) in *. set (tv := denote curr t mod 2 ^ ewidth t) in *.
+    pose proof (nlen_nonneg rhs) as Hr.
+    cbn [emit_assign wr]. fold tv.
+    set (f := fun c : option (list pattern) * expr =>
+                match fst c with Some ps => ps | None => [dashes (length (selnets t))] end).
+    assert (Hpl : forall c, pl_match tv (f c) = case_sem tv (fst c)).
+    { intros c. unfold f. destruct (fst c); [reflexivity|]. unfold pl_match. cbn [existsb case_sem].
+      rewrite pat_sem_dashes. reflexivity. }
+    match goal with |- Z.testbit (wa_run _ _ _ (?F cs 0%nat) _) _ = match ?G cs with _ => _ end =>
+      assert (Hgen : forall cs' k g old',
+        Forall (fun c : option (list pattern) * expr =>
+                  wf_lhs (snd c) = true /\ sig_ok ss (snd c) /\ sel_ok curr (snd c) /\ seln_ok selnets rho curr (snd c) /\
+                  tclass (snd c) = true /\
+                  (wf_lhs (snd c) = true -> sig_ok ss (snd c) -> sel_ok curr (snd c) -> seln_ok selnets rho curr (snd c) ->
+                   tclass (snd c) = true ->
+                   forall start rhs cond i b old, aval rho cond = true -> 0 <= start -> start + nlen rhs <= ewidth (snd c) ->
+                   0 <= b < width (ss i) ->
+                   Z.testbit (wa_run rho i (width (ss i)) (emit_assign selnets (snd c) start rhs cond) old) b =
+                   match wr curr (snd c) i b with
+                   | Some k => if (start <=? k) && (k <? start + nlen rhs) then Z.testbit (nval rho rhs) (k - start) else Z.testbit old b
+                   | None => Z.testbit old b
+                   end)) cs' ->
+        (forall j, first_match tv (map f cs) (k + j) = g && first_match tv (map f cs') j) ->
+        Z.testbit (wa_run rho i (width (ss i)) (F cs' k) old') b =
+        if g then match G cs' with
+                  | Some k0 => if (start <=? k0) && (k0 <? start + nlen rhs) then Z.testbit (nval rho rhs) (k0 - start) else Z.testbit old' b
+                  | None => Z.testbit old' b
+                  end
+        else Z.testbit old' b) end.
+    { induction cs' as [|c cs' IHc]; intros k g old' Hf Hg; [destruct g; reflexivity|].
+      inversion Hf as [|? ? [Hc1 [Hc2 [Hc3 [Hc4 [Hc5 Hc7]]]]] Hf']; subst. cbn beta iota.
+      rewrite wa_run_app.
+      assert (Hk : first_match tv (map f cs) k = g && case_sem tv (fst c)).
+      { specialize (Hg 0%nat). rewrite Nat.add_0_r in Hg. rewrite Hg. cbn [map first_match]. rewrite Hpl. reflexivity. }
+      assert (Hg' : forall j, first_match tv (map f cs) (S k + j) = (g && negb (case_sem tv (fst c))) && first_match tv (map f cs') j).
+      { intros j. specialize (Hg (S j)). replace (k + S j)%nat with (S k + j)%nat in Hg by lia.
+        rewrite Hg. cbn [map first_match]. rewrite Hpl, andb_assoc. reflexivity. }
+      rewrite (IHc (S k) _ _ Hf' Hg').
+      pose proof (ewidth_nonneg (snd c) Hc1) as Hew.
+      destruct g; destruct (case_sem tv (fst c)) eqn:Ecs; cbn [andb negb] in *.
+      - (* the selected element *)
+        destruct (ewidth (snd c) <=? start) eqn:Esk.
+        + cbn [wa_run fold_left]. destruct (wr curr (snd c) i b) as [k0|] eqn:Ew; [|reflexivity].
+          pose proof (wr_range curr (snd c) Hc1 Hc3 i b k0 Ew). replace ((start <=? k0) && (k0 <? start + nlen rhs)) with false by lia.
+          reflexivity.
+        + set (n := Z.to_nat (ewidth (snd c) - start)).
+          assert (Hfl : nlen (firstn n rhs) = Z.min (nlen rhs) (ewidth (snd c) - start)).
+          { unfold nlen. rewrite firstn_length. unfold n. lia. }
+          rewrite (Hc7 Hc1 Hc2 Hc3 Hc4 Hc5 start (firstn n rhs) (AMatch cond (selnets t) (map f cs) k) i b old').
+          * destruct (wr curr (snd c) i b) as [k0|] eqn:Ew; [|reflexivity].
+            pose proof (wr_range curr (snd c) Hc1 Hc3 i b k0 Ew). rewrite Hfl.
+            destruct ((start <=? k0) && (k0 <? start + nlen rhs)) eqn:Ewin.
+            -- replace ((start <=? k0) && (k0 <? start + Z.min (nlen rhs) (ewidth (snd c) - start))) with true by lia.
+               destruct (Nat.leb n (length rhs)) eqn:En.
+               ++ apply Nat.leb_le in En. rewrite testbit_nval_firstn by (auto; lia).
+                  replace (k0 - start <? Z.of_nat n) with true by (unfold n; lia). reflexivity.
+               ++ apply Nat.leb_gt in En. rewrite firstn_all2 by lia. reflexivity.
+            -- replace ((start <=? k0) && (k0 <? start + Z.min (nlen rhs) (ewidth (snd c) - start))) with false by lia.
+               reflexivity.
+          * cbn [aval]. rewrite Hc, Hnv. fold tv. rewrite Hk. reflexivity.
+          * lia.
+          * rewrite Hfl. lia.
+          * exact Hb.
+      - destruct (ewidth (snd c) <=? start); [reflexivity|].
+        rewrite emit_assign_false by (cbn [aval]; rewrite Hnv; fold tv; rewrite Hk, andb_false_r; reflexivity).
+        reflexivity.
+      - destruct (ewidth (snd c) <=? start); [reflexivity|].
+        rewrite emit_assign_false by (cbn [aval]; rewrite Hnv; fold tv; rewrite Hk, andb_false_r; reflexivity).
+        reflexivity.
+      - destruct (ewidth (snd c) <=? start); [reflexivity|].
+        rewrite emit_assign_false by (cbn [aval]; rewrite Hnv; fold tv; rewrite Hk, andb_false_r; reflexivity).
+        reflexivity. }
+    rewrite (Hgen cs 0%nat true old).
+    + reflexivity.
+    + clear Hgen. rewrite Forall_forall in *. intros c Hin.
+      assert (Hcc := Hcl). rewrite forallb_forall in Hcc. specialize (Hcc c Hin).
+      rewrite forallb_forall in Hwcs. specialize (Hwcs c Hin). apply andb_true_iff in Hwcs.
+      repeat split; try tauto; auto; try lia.
+    + intros j. reflexivity.
+Qed.
+
+(* ... which is what the statement-level semantics (Stmt.assign_rtl, the simulator's compiled assignment) does *)
+Theorem emit_assign_equals_assign_rtl ss curr rho selnets lhs :
+  wf_lhs lhs = true -> lin lhs = true -> sig_ok ss lhs -> sel_ok curr lhs -> seln_ok selnets rho curr lhs ->
+  tclass lhs = true ->
+  forall rhs arg nx i b, nlen rhs = ewidth lhs -> nval rho rhs = mask (ewidth lhs) arg -> 0 <= b < width (ss i) ->
+  Z.testbit (wa_run rho i (width (ss i)) (emit_assign selnets lhs 0 rhs ATrue) (nx i)) b =
+  Z.testbit (assign_rtl curr lhs arg nx i) b.
+Proof.
+  intros Hwf Hlin Hsig Hsel Hsn Hcl rhs arg nx i b Hn Hv Hb.
+  rewrite (emit_assign_bits ss curr rho selnets lhs Hwf Hsig Hsel Hsn Hcl 0 rhs ATrue i b (nx i) eq_refl ltac:(lia) ltac:(lia) Hb).
+  rewrite (assign_rtl_bits ss curr lhs Hwf Hlin Hsig Hsel arg nx i b Hb).
+  destruct (wr curr lhs i b) as [k|] eqn:E; [|reflexivity].
+  pose proof (wr_range curr lhs Hwf Hsel i b k E) as Hk. unfold in_window.
+  replace ((0 <=? k) && (k <? 0 + nlen rhs)) with true by lia.
+  rewrite Z.sub_0_r, Hv, testbit_mask by lia. replace (k <? ewidth lhs) with true by lia. reflexivity.
 Qed.
